@@ -308,6 +308,22 @@ Definition mkcfg (u : list (nat * ures)) (e : list (nat * (eres * bool))) (a : l
      fault := fun t => mem_nat t faults;
      with_ctx := wc; grd := g; uguard := ug |}.
 
+(* ---------------------------------------------------------------------------------------------
+   customize(target, hide=, hide_line=, prune=, elaborate=user): the registered hook sets the flags,
+   calls the user's elaborate hook (if any) and returns its result unless that is None, else PRUNE if
+   [prune] else None.  PRUNE / an empty sequence is a result of its own, distinct from None.
+   [user] = the user hook's row (result, hide flag it leaves on the frame); without a user hook the
+   frame's hide flag is the [hide] argument (the default __tracebackhide__ hook is replaced).
+   (The bare next_inner as user result is only generated with prune = false: it is None exactly when
+   next_inner is None, which the finite tables cannot express together with prune.) *)
+Definition customized (hide prune : bool) (user : option (eres * bool)) : eres * bool :=
+  let dflt := if prune then ESeq [] else ENone in
+  match user with
+  | None => (dflt, hide)
+  | Some (ENone, h) | Some (EOne RNone, h) => (dflt, h)
+  | Some (r, h) => (r, h)
+  end.
+
 Definition qitem_eqb (a b : qitem) : bool :=
   match a, b with
   | QPy x, QPy y => x =? y
